@@ -227,15 +227,12 @@ func runC14(r *simcore.Run) {
 			}
 		}
 	}
-	for j, text := range e.relay.SvcSeen {
-		if j >= len(rounds) {
-			break
-		}
-		rd := rounds[j]
+	// what every eligible (instance, routing tag) of a round denotes
+	denote := func(rd round) (must, may map[string]bool) {
 		elig := c01Eligible(rd.health.Health, []string{"passing"}, false)
 		// what every eligible (instance, routing tag) denotes
-		must := map[string]bool{} // well-formed registrations: the command has to be there
-		may := map[string]bool{}  // adversarial but meaningful registrations: exact command or nothing
+		must = map[string]bool{} // well-formed registrations: the command has to be there
+		may = map[string]bool{}  // adversarial but meaningful registrations: exact command or nothing
 		for _, svcs := range rd.catalogs {
 			for _, s := range svcs {
 				if !elig[[3]string{s.Node, s.ServiceID, s.ServiceName}] {
@@ -264,7 +261,19 @@ func runC14(r *simcore.Run) {
 				}
 			}
 		}
+		return must, may
+	}
+	// A watcher may hand over one config per health reply (as fabio does) or withhold a config whose text equals the
+	// one it handed over last: each emitted config is matched with a round not older than its predecessor's round
+	// (the commands of the well-formed services of that round all present, every other command denoted by a
+	// registration of that round); if none matches, it is judged against the earliest admissible round.
+	kPrev := 0
+	for j, text := range e.relay.SvcSeen {
+		if kPrev >= len(rounds) {
+			break
+		}
 		got := map[string]bool{}
+		var order []string
 		for ln, line := range strings.Split(text, "\n") {
 			if strings.TrimSpace(line) == "" {
 				continue
@@ -278,14 +287,52 @@ func runC14(r *simcore.Run) {
 				r.Fail("generated-command", "rejected-by-table", "service config #%d line %d is rejected when the table is built (%v): %.200q", j+1, ln+1, err, line)
 				continue
 			}
+			if !got[cmds[0]] {
+				order = append(order, fmt.Sprintf("%d\x00%s\x00%s", ln+1, cmds[0], line))
+			}
 			got[cmds[0]] = true
-			if !must[cmds[0]] && !may[cmds[0]] {
-				r.Fail("generated-command", "denotes-no-registration", "service config #%d line %d denotes %s, which no registration served in this round denotes: %.200q", j+1, ln+1, cmds[0], line)
+		}
+		fits := func(must, may map[string]bool) bool {
+			for c := range got {
+				if !must[c] && !may[c] {
+					return false
+				}
+			}
+			for c := range must {
+				if !got[c] {
+					return false
+				}
+			}
+			return true
+		}
+		matched := -1
+		for k := kPrev; k < len(rounds); k++ {
+			if must, may := denote(rounds[k]); fits(must, may) {
+				matched = k
+				break
+			}
+		}
+		if matched >= 0 {
+			if matched > kPrev+1 || (j > 0 && matched > kPrev) {
+				r.Probe("config_matches_a_later_round")
+			}
+			kPrev = matched
+			continue
+		}
+		k := kPrev
+		if j > k && j < len(rounds) {
+			k = j
+		}
+		must, may := denote(rounds[k])
+		for _, o := range order {
+			f := strings.SplitN(o, "\x00", 3)
+			if !must[f[1]] && !may[f[1]] {
+				r.Fail("generated-command", "denotes-no-registration", "service config #%d line %s denotes %s, which no registration served in round %d (or any later round that fits) denotes: %.200q", j+1, f[0], f[1], k+1, f[2])
 			}
 		}
 		for c := range must {
 			if !got[c] {
-				r.Fail("isolation", "well-formed-command-missing", "service config #%d lacks the command of a well-formed healthy service: %s", j+1, c)
+				r.Fail("isolation", "well-formed-command-missing", "service config #%d lacks the command of a well-formed healthy service (round %d): %s", j+1, k+1, c)
 			}
 		}
 	}
